@@ -240,6 +240,149 @@ def judge_number(w, text, val, dialect, do_exec):
     return out, obs
 
 
+
+# ---- date / time / timestamp literals -------------------------------------------------------------
+_T_RE = re.compile(r"^(?:(\d{4})-(\d{2})-(\d{2}))?(?:[T ])?(?:(\d{2})(?::(\d{2}))?(?::(\d{2}))?(?:\.(\d+))?)?(Z|[+-]\d{2}:?\d{2})?$")
+
+
+def temporal_components(text):
+    """'2020-01-02T10:20:30.5+02:00' -> (Y, M, D, h, m, s, frac, tz) with tz as 'Z' / '+HHMM' / None; None if unreadable"""
+    m = _T_RE.match(text)
+    if not m or not text:
+        return None
+    Y, M, D, h, mi, s, f, tz = m.groups()
+    if tz and tz != "Z":
+        tz = tz.replace(":", "")
+    return (Y, M, D, h, mi, s, f, tz)
+
+
+def gen_temporal(rng, tier):
+    """-> list of (kind, prql literal without '@')"""
+    dates = ["%s-%s-%s" % (y, mo, d) for y in ("0001", "1970", "2000", "2024", "9999") for mo in ("01", "02", "12") for d in ("01", "09", "28", "29", "31")]
+    mins = ["", ":00", ":05", ":59"]
+    secs = ["", ":00", ":07", ":59"]
+    fracs = ["", ".5", ".05", ".123", ".000001", ".999999", ".120"]
+    tzs = ["", "Z", "+00:00", "+02:00", "-08:30", "+0530", "-1100", "+14:00", "-00:00", "+0000", "-12:00", "+09:45"]
+    times = []
+    for h in ("00", "09", "12", "23"):
+        for mi in mins:
+            for s in (secs if mi else [""]):
+                for f in (fracs if s else [""] + ([".5"] if tier != "quick" else [])):
+                    for tz in tzs:
+                        times.append(h + mi + s + f + tz)
+    out = [("date", d) for d in dates]
+    if tier == "quick":
+        times = rng.sample(times, 400)
+    out += [("time", t) for t in times]
+    n_ts = 600 if tier == "quick" else 12000
+    for _ in range(n_ts):
+        out.append(("timestamp", rng.choice(dates) + "T" + rng.choice(times)))
+    return out
+
+
+def temporal_contexts(lit):
+    return [("select", "from t | select {x = %s}" % lit),
+            ("case_branch", "from t | select {x = case [a == 1 => %s, true => null]}" % lit),
+            ("relation_literal", "from [{x = %s}]" % lit),
+            ("derive_then_filter", "from t | derive {x = %s} | filter a == 1 | select {x}" % lit),
+            ("func_default", "let f = y d:%s -> y ?? d\nfrom t | select {x = (f null)}" % lit)]
+
+
+def sqlite_expected(kind, comps):
+    """What the pinned SQLite's DATE()/TIME()/DATETIME() return for a *valid* value with at least hours and minutes;
+    None when not judged (invalid calendar value, hour-only time, result outside year 1..9999)."""
+    import datetime
+    Y, M, D, h, mi, s, f, tz = comps
+    try:
+        if kind == "date":
+            return datetime.date(int(Y), int(M), int(D)).isoformat()
+        if mi is None:
+            return None
+        base = datetime.datetime(int(Y) if Y else 2000, int(M) if M else 1, int(D) if D else 1, int(h), int(mi), int(s or 0))
+        if tz and tz != "Z":
+            off = (int(tz[1:3]) * 60 + int(tz[3:5])) * (1 if tz[0] == "+" else -1)
+            base = base - datetime.timedelta(minutes=off)
+        if kind == "time":
+            return base.strftime("%H:%M:%S")
+        if not (1 <= base.year <= 9999):
+            return None
+        return "%04d-%02d-%02d %02d:%02d:%02d" % (base.year, base.month, base.day, base.hour, base.minute, base.second)
+    except (ValueError, OverflowError):
+        return None
+
+
+_KW = {"date": ("DATE",), "time": ("TIME",), "timestamp": ("TIMESTAMP", "DATETIME")}
+
+
+def judge_temporal(w, kind, text, ctx_name, src, dialect, do_exec):
+    out = []
+    r = w.call({"op": "compile", "src": src, "target": "sql." + dialect, "db": "d" if do_exec else None})
+    if "sql" not in r:
+        if "panic" in r:
+            return [("panic:" + core.panic_sig(r["panic"]), "")], {"rejected": 1}
+        return [], {"rejected": 1}
+    sql = r["sql"]
+    obs = {"compiled": 1}
+    p = w.call({"op": "sqlparse", "dialect": {"glaredb": "postgres"}.get(dialect, dialect), "sql": sql})
+    if not p.get("ok"):
+        out.append(("statement_broken", "sql=%r %s" % (sql[:200], p.get("parse_error", "")[:80])))
+    else:
+        obs["parsed"] = 1
+    found = re.findall(r"\b([A-Za-z]+)\s*\(?\s*'([^']*)'", sql)
+    want = temporal_components(text)
+    ok = False
+    for (kw, val) in found:
+        if kw.upper() in _KW[kind] and temporal_components(val) == want:
+            ok = True
+    if not ok:
+        out.append(("temporal_literal_differs", "@%s (%s) -> %r; sql=%r" % (text, kind, found[:3], sql[:200])))
+    if do_exec:
+        ex = r.get("exec", {})
+        exp = sqlite_expected(kind, want)
+        if "sqlite_error" in ex:
+            out.append(("engine_rejects", "sql=%r %s" % (sql[:200], ex["sqlite_error"][:80])))
+        elif exp is not None:
+            got = [row[0] for row in ex.get("rows", [])]
+            if ctx_name == "case_branch":
+                got = [g for g in got if g is not None]
+            if not got or any(g != exp for g in got):
+                out.append(("executed_value_differs", "@%s wanted %r got %r sql=%r" % (text, exp, got[:3], sql[:200])))
+            obs["executed"] = 1
+    return out, obs
+
+
+def _temporal_shard(seed, shard, items, tier):
+    rng = core.shard_rng(seed, "C08t", shard)
+    w = core.Worker()
+    w.db_open("d", ["CREATE TABLE t (a INTEGER, b TEXT); INSERT INTO t VALUES (1, 'q'), (2, 'r');"])
+    viols, seen = [], set()
+    obs = {"temporal_cases": 0, "temporal_compiled": 0, "temporal_executed": 0, "temporal_rejected": 0, "temporal_forms": set()}
+    for (kind, text) in items:
+        ctxs = temporal_contexts("@" + text)
+        for (ctx_name, src) in (ctxs if tier != "quick" else [ctxs[0], rng.choice(ctxs[1:])]):
+            dialects = core.DIALECTS if tier != "quick" else ["sqlite", "generic"] + rng.sample(core.DIALECTS, 2)
+            for dialect in dict.fromkeys(dialects):
+                o, ob = judge_temporal(w, kind, text, ctx_name, src, dialect, dialect == "sqlite")
+                obs["temporal_cases"] += 1
+                for k, x in ob.items():
+                    obs["temporal_" + k] = obs.get("temporal_" + k, 0) + x
+                c = temporal_components(text)
+                form = (kind, "min" if c[4] else "-", "sec" if c[5] else "-", "frac%d" % len(c[6]) if c[6] else "-",
+                        ("Z" if c[7] == "Z" else c[7][0] + ("colon" if ":" in text[-6:] else "plain")) if c[7] else "-")
+                obs["temporal_forms"].add(form + (dialect,))
+                for (sym, det) in o:
+                    sym = sym.split(":")[0]
+                    key = (sym, dialect, form)
+                    if key in seen:
+                        continue
+                    seen.add(key)
+                    viols.append({"property": "C08", "symptom": sym, "shape": "%s/temporal/%s" % (dialect, "/".join(form)),
+                                  "witness": {"kind": "temporal", "tkind": kind, "text": text, "ctx": ctx_name, "src": src, "dialect": dialect}, "detail": det})
+    w.close()
+    obs["temporal_forms"] = [list(x) for x in obs["temporal_forms"]]
+    return viols, obs
+
+
 def gen_strings(rng, tier):
     out = []
     # exhaustive to length 3 over the core alphabet
@@ -364,6 +507,13 @@ def run(tier, seed):
         run.extend(v)
         obs["classes"] |= set(tuple(c) for c in o.pop("classes"))
         core.merge_counts(obs, o)
+    titems = gen_temporal(rng, tier)
+    tres = core.run_shards(_temporal_shard, [dict(seed=seed, shard=i, items=titems[i::N], tier=tier) for i in range(N)])
+    tforms = set()
+    for v, o in tres:
+        run.extend(v)
+        tforms |= set(tuple(c) for c in o.pop("temporal_forms"))
+        core.merge_counts(obs, o)
     best = {}
     for v in run.violations:
         k = (v["symptom"], v["shape"])
@@ -372,9 +522,11 @@ def run(tier, seed):
     run.violations = list(best.values())
     classes = obs.pop("classes")
     run.coverage = {
-        "evaluations": obs.get("cases", 0),
-        "distinct_nontrivial": len(classes),
-        "rule": "string values: all strings up to length %d over a 12-symbol core alphabet (quotes, backslash, %% _ ; - / * newline, non-ASCII) plus random hostile strings up to 8 fragments; each in every spelling that can express it (escaped double/single quotes, plain, triple-quoted, raw, f-string fragment, all-\\u{} escapes) x contexts (select, case branch, relation literal, filter) x dialects; numerics: %d spellings x 12 dialects. "
+        "evaluations": obs.get("cases", 0) + obs.get("temporal_cases", 0),
+        "distinct_nontrivial": len(classes) + len(tforms),
+        "temporal_literals": len(titems),
+        "temporal_form_cells": len(tforms),
+        "rule": "string values: all strings up to length %d over a 12-symbol core alphabet (quotes, backslash, %% _ ; - / * newline, non-ASCII) plus random hostile strings up to 8 fragments; each in every spelling that can express it (escaped double/single quotes, plain, triple-quoted, raw, f-string fragment, all-\\u{} escapes) x contexts (select, case branch, relation literal, filter) x dialects; numerics: %d spellings x 12 dialects; date / time / timestamp literals: every optional part of the lexer's grammar (minutes, seconds, 1-6 fraction digits, Z and +-HH:MM / +-HHMM zones) present and absent x 5 contexts x dialects - the emitted typed string / SQLite function argument must have the same components, and on sql.sqlite the executed DATE()/TIME()/DATETIME() must return the value (to the second, zone applied) for valid calendar values. "
                 "Oracles: executed value equals v on pinned SQLite (sqlite, generic); the statement parses for the dialect, its literal decodes to v, and the statement with literals masked equals the benign twin's. distinct non-trivial = distinct (character-class set, spelling, dialect) cells" % (2 if tier == "quick" else 3, len(NUMERIC)),
         "exhaustive": True,
         "distinct_values": len(set(strings)),
@@ -384,6 +536,7 @@ def run(tier, seed):
     run.assumptions = [
         "the generator knows each value by construction from the book's escape table (\\\\ \\\" \\' \\n \\r \\t \\u{...}); raw strings take no escapes",
         "dialect view uses sqlparser's tokenizer for that dialect (backslash is an escape in MySQL/BigQuery/ClickHouse/Snowflake string literals)",
+        "date/time literals: PRQL fixes no calendar validation, so out-of-range components (month 13, hour 25) are only compared component-wise, never executed; SQLite's DATETIME() drops fractional seconds, so the engine view compares to the second; hour-only times are not executed (SQLite reads a bare number as a Julian day)",
         "floats: the emitted token parsed by correctly-rounded float() must equal the value exactly; the executed value within 2 ulp (engine side)",
     ]
     return run
@@ -393,7 +546,10 @@ def replay(case):
     w = core.Worker()
     w.db_open("d", ["CREATE TABLE t (a INTEGER, b TEXT); INSERT INTO t VALUES (1, 'q'), (2, 'r');"])
     out = []
-    if case["kind"] == "number":
+    if case["kind"] == "temporal":
+        o, _ = judge_temporal(w, case["tkind"], case["text"], case["ctx"], case["src"], case["dialect"], case["dialect"] == "sqlite")
+        out = [{"property": "C08", "symptom": s.split(":")[0], "shape": "", "witness": case, "detail": d} for s, d in o]
+    elif case["kind"] == "number":
         o, _ = judge_number(w, case["text"], case["value"], case["dialect"], case["dialect"] in ("sqlite", "generic"))
         out = [{"property": "C08", "symptom": s, "shape": "", "witness": case, "detail": d} for s, d in o]
     else:
